@@ -170,10 +170,14 @@ def run(ctx):
 
 
 def replay(ctx, payload):
+    """re-run the recorded program through the same comparisons; reproduced iff it raises a violation again"""
     case = payload["case"]
     if "defs" in case:
-        res, w, b = D.eval_dep_program(case)
-        print(json.dumps([{k: r[k] for k in ("impl_raw", "model")} for r in res], default=str))
+        stats = collections.Counter()
+        stats["distinct"] = set()
+        before = len(ctx.violations)
+        check_program(ctx, case, stats, "replayed_calls")
+        return len(ctx.violations) > before
     return True
 
 
